@@ -74,6 +74,8 @@ def check(arg, props, tier=None):
     rc, out = sh(f"git -C /repo apply {patch_of(arg)}")
     assert rc == 0, out
     res = {}
+    # the checks rewrite evidence/<id>.json on every run: keep the evidence of the unchanged tree
+    saved = {p: open(f"/verif/evidence/{p}.json").read() for p in props if os.path.exists(f"/verif/evidence/{p}.json")}
     try:
         for p in props:
             env = dict(ENV)
@@ -88,6 +90,9 @@ def check(arg, props, tier=None):
         rc, out = sh("git -C /repo checkout -- . && git -C /repo status --porcelain")
         if out.strip():
             print("WARNING: /repo left with:", out)
+        for p, text in saved.items():
+            with open(f"/verif/evidence/{p}.json", "w") as fh:
+                fh.write(text)
     return res
 
 def keep(mutdir, sid, meta):
